@@ -404,11 +404,11 @@ struct BigInt {
     inline SizeT32 FindFirstBit() const noexcept {
         SizeT32 index = 0U;
 
-        while ((storage_[index] == 0) && (index <= index_)) {
+        while ((index < index_) && (storage_[index] == 0)) {
             ++index;
         }
 
-        return (Platform::FindFirstBit(storage_[index_]) + (index * TypeWidth()));
+        return (Platform::FindFirstBit(storage_[index]) + (index * TypeWidth()));
     }
 
     inline SizeT32 FindLastBit() const noexcept {
